@@ -1,22 +1,16 @@
 SPECIFICATION Spec
-CONSTANT Mode = "listing"
-CONSTANT McAlphabet = {"c"}
-CONSTANT McMaxLen = 0
-CONSTANT McUnitKinds = {"plain", "icode", "sym9", "alt7", "negative", "plus", "few4", "few1", "empty", "nonint", "emptynum", "decimal"}
-CONSTANT McTabKinds = {"three", "extra", "two", "spaces"}
-CONSTANT McLabelKinds = {"lw"}
-CONSTANT McWraps = {"none"}
-CONSTANT MaxLines = 1
-CONSTANT Contained = {"ValueError"}
-CONSTANT McNameKinds = {"exact"}
-CONSTANT McLwKinds = {"valid"}
-CONSTANT MaxPairs = 0
-CONSTANT McStackKinds = {"exact"}
-CONSTANT MaxStackLen = 0
-CONSTANT MaxStacks = 0
+CONSTANT Modes = {"listing"}
+CONSTANT LabelSpaces <- QuickLabelSpaces
+CONSTANT ListingSpaces <- UncontainedListingSpaces
+CONSTANT DssrSpaces <- QuickDssrSpaces
+CONSTANT Contained <- OnlyValueErrorContained
 CONSTANT LwTest = "members"
+INVARIANT LabelMapExact
+INVARIANT LabelStepsTyped
 INVARIANT Fr3dNeverRaises
 INVARIANT LineYieldsExactlyOne
 INVARIANT MalformedSkipped
 INVARIANT UnknownKeptAsOther
+INVARIANT DssrPairsExact
+INVARIANT DssrStacksExact
 CHECK_DEADLOCK FALSE
